@@ -128,6 +128,11 @@ class Flow:
                 return set()
             projs = pl["p"]
             out = set()
+            if self.track_hash:
+                # order taint: which element is visited IS the information, so index locals count
+                for e in projs:
+                    if e["k"] == "index":
+                        out.add(node(e["l"]))
             first_field = None
             seen_deref = False
             for e in projs:
@@ -364,9 +369,12 @@ class Flow:
         if c and callee_is(t, trait="Rng", name=("gen", "gen_range", "gen_bool", "sample", "random")) or \
                 (c and c.get("crate") in ("rand", "rand_core") and c.get("name") in ("next_u32", "next_u64", "fill_bytes", "gen")):
             return write_place(dest, {("rng", body.key, bi)} | ctrl)
-        # 4. indexing: element value, not the index
+        # 4. indexing: element value, not the index (except for order taint)
         if c and callee_is(t, trait=("Index", "IndexMut"), name=("index", "index_mut")):
-            ch = write_place(dest, argn[0] | ctrl, frozenset(argp[0]))
+            srcs = argn[0] | ctrl
+            if self.track_hash and len(argn) > 1:
+                srcs = srcs | argn[1]
+            ch = write_place(dest, srcs, frozenset(argp[0]))
             return ch
         # 5. hash iteration sources (optional)
         if self.track_hash and c and args:
@@ -376,6 +384,21 @@ class Flow:
                 return write_place(dest, {("hash", body.key, bi)} | alln, frozenset(allp))
             if is_hash_recv and c.get("name") == "fmt":
                 return write_place(dest, {("hash", body.key, bi)} | alln, frozenset(allp))
+            int_result = (self.f.ty(body.local_ty(dest["l"])) or {}).get("name") in ("usize", "u8", "u16", "u32", "u64", "isize", "i32", "i64", "bool")
+            order_free = (is_hash_recv and c.get("name") in ("insert", "contains", "remove", "len", "is_empty", "get", "extend", "is_subset", "is_superset", "is_disjoint")) \
+                or (c.get("trait", "").endswith("Iterator") and c.get("name") in ("count", "any", "all", "min", "max")) \
+                or (c.get("trait", "").endswith("Iterator") and c.get("name") in ("sum", "product") and int_result)
+            if order_free:
+                # a set built / an exact integer reduction computed in any order is the same value: drop order taint, keep the rest
+                fnode = ("n", ("filter", bi), None)
+                add(fnode, alln)
+                self.filters.add(fnode)
+                ch = write_place(dest, {fnode}, frozenset(allp))
+                for i, a in enumerate(args):
+                    if a["k"] in ("copy", "move") and self.maywrite_ty(body.local_ty(a["place"]["l"])):
+                        for y in argp[i]:
+                            ch |= add(node(y), {fnode})
+                return ch
         if self.track_hash and cb is not None and cb.key in self.hash_kill:
             # verified commutative reducer: result does not depend on the order of its input
             fnode = ("n", ("filter", bi), None)
